@@ -304,7 +304,15 @@ def tot_saturating_sub(an, b, t, res):
     return [le(lin(res), a)] if a is not None else []
 
 
+def tot_tsig_len(bound):
+    def f(an, b, t, res):
+        return [le(lin(res), lin(c=bound))]
+    return f
+
+
 POSTS_TOTAL = {
+    'message::tsig::PreparedTsigRr::unsigned_len': tot_tsig_len(255 + 255 + 26 + 6),
+    'message::tsig::PreparedTsigRr::signed_len': tot_tsig_len(255 + 255 + 26 + 6 + 64),
     'name::Name::wire_repr': tot_wire_repr,
     'rr::rdata::Rdata::octets': tot_rdata_octets,
     'std::cmp::Ord::min': tot_min, 'core::cmp::Ord::min': tot_min, 'std::cmp::min': tot_min,
@@ -491,6 +499,17 @@ def run_sites(R, F, fns, rule, exceptions=None, S=None, skip_kinds=()):
                     unmet = [fmt(g) + ' <= 0' for g, r in zip(goals, res) if not r]
                     core = [fmt(f) + ' <= 0' for f in facts if not (len([x for x in f if x != '1']) <= 1)]
                     why = 'cannot prove %s from the facts that hold on every path here: %s' % ('; '.join(unmet)[:300], ' & '.join(core)[:600] or '(none)')
+            elif kind == 'foreign' and 'copy_from_slice' in detail:
+                t_ = fn.blocks[b]['term']
+                d_, s_ = t_['args'][0], t_['args'][1]
+                if is_place(d_) and is_place(s_):
+                    Ld = lin(an.atom_len({'l': d_['pl']['l'], 'p': d_['pl']['p'] + ['deref'], 'ty': ''}))
+                    Ls = lin(an.atom_len({'l': s_['pl']['l'], 'p': s_['pl']['p'] + ['deref'], 'ty': ''}))
+                    ok, facts, res = an.prove(b, None, eq(Ld, Ls))
+                    if ok:
+                        verdict, why = True, 'copy_from_slice: destination and source lengths proved equal'
+                    else:
+                        why = 'cannot prove that copy_from_slice gets slices of equal length'
             elif kind in ('unwrap',):
                 r = t1_unwrap(an, b, F)
                 if r is not None:
@@ -668,6 +687,8 @@ def verify_post(R, F, S, rule, gpath, specs, wrapper_of=()):
 # term := ('arg', i) | ('len', i) (length of the slice passed as argument i) | ('const', c) | ('sum', [terms])
 PRE_SPECS = {
     'name::wire::parse_pointer': [('lt', ('arg', 3), ('len', 1), 'index < len(octets)')],
+    "message::writer::Writer::<'a>::write_u16": [('le', ('sum', [('arg', 2), ('const', 2)]), ('flen', 1, 'octets'), 'position + 2 <= len(octets)')],
+    "message::writer::Writer::<'a>::write": [('le', ('sum', [('arg', 2), ('len', 3)]), ('flen', 1, 'octets'), 'position + len(data) <= len(octets)')],
 }
 
 
@@ -684,6 +705,14 @@ def _term(an, term, call=None):
             e = add(e, y)
         return e
     i = term[1]
+    if k == 'flen':
+        # length of the slice held in field term[2] of the struct that argument i points to
+        if call is None:
+            return lin('len:(*(*_%d).%s)' % (i, term[2]))
+        a = call['args'][i - 1]
+        if not is_place(a):
+            return None
+        return lin('len:(*%s.%s)' % (an.fn.canon_str({'l': a['pl']['l'], 'p': a['pl']['p'] + ['deref'], 'ty': ''}), term[2]))
     if call is None:
         return lin('L%d' % i) if k == 'arg' else lin('len:(*_%d)' % i)
     a = call['args'][i - 1]
@@ -710,10 +739,12 @@ def install_pres(S):
         S.pre[gp] = mk()
 
 
-def check_pres(R, F, S, rule, scope=None):
+def check_pres(R, F, S, rule, scope=None, only=None):
     """Every call of a function with a declared precondition establishes it (E5 at the call site)."""
     n = 0
     for gp, specs in PRE_SPECS.items():
+        if only is not None and gp not in only:
+            continue
         for fn in F.fns.values():
             if fn.crate != 'quandary' or '::tests::' in fn.gpath:
                 continue
